@@ -70,8 +70,9 @@ PluqSolveLeft(F, m, n, B) ==
 SolveLeft(A, B) == PluqSolveLeft(Pluq(A), A.m, A.n, B)
 
 \* ---- mzd_kernel_left_pluq --------------------------------------------------------------------
-KernelLeftPluq(A) ==
-  LET F == Pluq(A)  r == F.r  n == A.n IN
+\* F = the factorisation [LU, P, Q, r] (of the library's own PLUQ when the model is bound to recorded calls)
+KernelFrom(F, n) ==
+  LET r == F.r IN
   IF r = n THEN [has |-> FALSE, K |-> Zero(0, 0)]
   ELSE LET U == Sub(F.LU, 0, 0, r, r)
            RU0 == Sub(F.LU, 0, r, r, n - r)                              \* copy of U12
@@ -81,6 +82,7 @@ KernelLeftPluq(A) ==
                  IN Mat(r, n - r, G[r])                                  \* mzd_trsm_upper_left(U, RU)
            R == Mat(n, n - r, [i \in 0 .. n - 1 |-> IF i < r THEN RU.r[i] ELSE {i - r}])
        IN [has |-> TRUE, K |-> ApplyPLeftTrans(R, F.Q)]
+KernelLeftPluq(A) == KernelFrom(Pluq(A), A.n)
 
 \* ---- mzd_trtri_upper: recursion of triangular.c with threshold LIMIT (n*n < LIMIT -> direct) ----
 RECURSIVE Trtri(_, _, _)
